@@ -498,6 +498,27 @@ def _class(c, cls, phase):
                     if not same:
                         viol('property read-back differs from the value written', cls=where, name=p['name'],
                              wrote=repr(v)[:60], read=repr(back)[:60])
+        if phase == 2 and c.get('dunders'):
+            try:
+                obj = make_object(c['class'], exact=True)
+            except NoValue:
+                obj = None
+                skip('no instance of ' + c['class'])
+            if obj is not None:
+                # the library class iterates over 3, 5, 8
+                for nm in c['dunders']:
+                    OUT['checked'] += 1
+                    OUT['dunder_calls'] = OUT.get('dunder_calls', 0) + 1
+                    try:
+                        if nm == 'len' and len(obj) != 3:
+                            viol('__len__ does not return the number of elements', cls=where, actual=len(obj))
+                        elif nm == 'contains' and ((5 in obj) is not True or (4 in obj) is not False):
+                            viol('__contains__ does not answer membership', cls=where, five=(5 in obj), four=(4 in obj))
+                        elif nm == 'iter' and list(iter(obj)) != [3, 5, 8]:
+                            viol('__iter__ does not iterate over the elements', cls=where, actual=list(iter(obj))[:6])
+                    except Exception as e:
+                        viol('dunder method raised', cls=where, name=nm, error='%s: %s' % (type(e).__name__, str(e)[:160]))
+                TRACE()
         for op in (c['ops'] if phase == 2 else []):
             try:
                 a = make_object(c['class'], exact=True)
